@@ -305,8 +305,20 @@ func c04Case(r *mon.Run, jr *rand.Rand, key *world.Key, cred *world.Cred, kss *k
 		fail("C04/disclosed-set-differs", fmt.Sprintf("proof reports disclosed indices %v, chosen %v", gotD, D), map[string]any{"proof": dumpD(proof)})
 	}
 	for _, i := range gotD {
-		if i < len(cred.C.Attributes) && proof.ADisclosed[i].Cmp(cred.C.Attributes[i]) != 0 {
-			fail("C04/disclosed-value-differs", fmt.Sprintf("disclosed value at %d is not the attribute", i), map[string]any{"proof": dumpD(proof)})
+		// compared with the ledger (the harness' own copy of what was signed), not with the credential object the library works on
+		if i < len(cred.Ledger) && proof.ADisclosed[i].Cmp(cred.Ledger[i]) != 0 {
+			fail("C04/disclosed-value-differs", fmt.Sprintf("disclosed value at %d is not the true attribute value", i), map[string]any{"proof": dumpD(proof)})
+		}
+	}
+	// proving must not modify the credential
+	for i := range cred.Ledger {
+		want := cred.Ledger[i]
+		if i == 0 && kss != nil {
+			continue // the holder only stores its own share at index 0
+		}
+		if cred.C.Attributes[i].Cmp(want) != 0 {
+			fail("C04/credential-modified-by-proving", fmt.Sprintf("after creating a proof, attribute %d of the credential object no longer has its issued value", i), map[string]any{"index": i, "now": dumpInt(cred.C.Attributes[i])})
+			cred.C.Attributes[i] = cp(want) // keep going with the true value
 		}
 	}
 	var wantH []int
@@ -326,7 +338,7 @@ func c04Case(r *mon.Run, jr *rand.Rand, key *world.Key, cred *world.Cred, kss *k
 		ints = append(ints, tsA)
 		for i, v := range tsDisclosed {
 			if wantD[i] {
-				if v.Cmp(cred.C.Attributes[i]) != 0 {
+				if v.Cmp(cred.Ledger[i]) != 0 {
 					fail("C04/timestamp-disclosed-value-differs", fmt.Sprintf("timestamp contribution slot %d differs from the disclosed attribute", i), nil)
 				}
 				continue
